@@ -78,12 +78,14 @@ class C12(Prop):
         rng = ctx.rng("c12")
         for _ in range(ctx.pick(120, 2500)):
             evs = {}
+            # some stores hold events without any data (an empty dict is falsy: "if data:" guards skip it)
+            datas = DATAS + ["{}", "{}"] if rng.random() < 0.3 else DATAS
             for b in ("b0", "b1"):
                 n = rng.randint(0, 6)
                 l, t = [], rng.randrange(0, 5) * SEC
                 for _ in range(n):
                     d = rng.choice([0, SEC, 2 * SEC, 1500])
-                    l.append([None, T0 + t, d, rng.choice(DATAS)])
+                    l.append([None, T0 + t, d, rng.choice(datas)])
                     t += (d + 999) // 1000 * 1000 + rng.choice([0, 0, SEC, 3 * SEC])
                 if rng.random() < 0.3:
                     rng.shuffle(l)  # written out of time order
@@ -123,6 +125,12 @@ class C12(Prop):
                     evs[b] = evs[b] + [[None, FUTURE + rng.randrange(0, 5) * SEC, rng.choice([0, SEC]), rng.choice(DATAS)]
                                        for _ in range(rng.randint(1, 2))]
                 w1 = FUTURE + rng.choice([0, 2, 10]) * SEC
+            if rng.random() < 0.12:
+                # events of more than a day (a status that lasted a weekend) which began more than a day before the window and
+                # reach into it or beyond it
+                for b in evs:
+                    evs[b] = evs[b] + [[None, (w0 - rng.choice([25, 30, 49, 73]) * 3600 * SEC) // 1000 * 1000, rng.choice([26, 50, 80, 200]) * 3600 * SEC, rng.choice(DATAS)]
+                                       for _ in range(rng.randint(1, 2))]
             off = rng.choice([0, 120, -300])
             if rng.random() < 0.12:
                 # a window whose edges are wall-clock times of a zone with daylight saving, inside the hour that repeats
@@ -293,6 +301,13 @@ class C12(Prop):
             return (f"after an insert the same query_bucket(b0) query returned {json.dumps(out['rerun']['qb'], ensure_ascii=False)[:300]}, "
                     f"the direct windowed read {json.dumps(out['rerun']['direct'], ensure_ascii=False)[:300]}")
         for b in ("b0", "b1"):
+            # "query_bucket_eventcount(b) the matching count": the number of events the windowed read returns, unless an
+            # event lies within the edge tolerance (about 2 ms) of a window edge
+            s0, e0 = case["start"], case["end"]
+            near = [x for x in out["before"][b]["events"] if abs(x[1] + x[2] - s0) <= 3000 or abs(x[1] - e0) <= 3000]
+            if not near and out["qb"][b]["count"] != len(out["qb"][b]["get"]):
+                return (f"query_bucket_eventcount({b}) = {out['qb'][b]['count']} but query_bucket({b}) returns "
+                        f"{len(out['qb'][b]['get'])} events over the same window (no event near an edge)")
             if out["qb"][b] != out["direct"][b]:
                 return (f"query_bucket({b}) / eventcount {json.dumps(out['qb'][b])[:300]} differs from the direct windowed "
                         f"read / count {json.dumps(out['direct'][b])[:300]}")
